@@ -1,6 +1,6 @@
 """C30 / C31: interval indexing and candle-window arithmetic.  TimeIndex.tla cases replayed into the real functions."""
 PROPS = ["C30", "C31"]
-READY = False
+READY = True
 CLAIMS = {
  "C30": dict(technique="TLA+ model of io.TimeToIndex/IndexToTime/IndexToOffset/FileSize over integer civil-calendar arithmetic with a zone-offset table, invariants checked by TLC on the interval grid; TLC-emitted cases replayed into the real functions under each configured zone",
              text="TimeIndex.tla transcribes the index functions (1D special case, elapsed-time division for the other timeframes, IndexToTime, IndexToOffset, FileSize with time.Local) over seconds relative to 2018-01-01 with the zone table of Go's tz data as an input (UTC, America/New_York, Asia/Tokyo, Australia/Lord_Howe, 2019-2021). TLC enumerates interval ordinals per (zone, timeframe, year) - every interval for the coarse timeframes, windows around year edges, leap day and every offset change plus a seeded stride for the fine ones - and checks for the first and last second of each interval: one slot in the own year's file, slot<->start round trip, explicit inverse of the slot map (bijection), Headersize <= offset and offset+recordLen <= FileSize. The emitted cases (boundaries and a seeded sample) are evaluated by the real functions with utils.InstanceConfig.Timezone set to the zone (and time.Local set to a seeded zone); the real results are judged against the property and compared with the model.",
